@@ -57,7 +57,9 @@ class Run:
         self.known_hits = {}
         self.notes = []
         self.findings = [f for f in load_known_findings() if f.get("property") == pid and f.get("status") == "open"]
-        self.outdir = os.path.join(VERIF, "out", pid)
+        # runs against another tree than /repo (seeded changes, VERIF_REPO) keep their replay files and evidence apart
+        self.alt = None if REPO == "/repo" else os.path.join(VERIF, "out", "alt", os.path.basename(REPO.rstrip("/")))
+        self.outdir = os.path.join(self.alt, pid) if self.alt else os.path.join(VERIF, "out", pid)
         shutil.rmtree(self.outdir, ignore_errors=True)
 
     # ----- coverage helpers
@@ -124,8 +126,9 @@ class Run:
             "wall_s": round(time.time() - self.t0, 2),
             "violations": len(self.violations),
         }
-        os.makedirs(os.path.join(VERIF, "evidence"), exist_ok=True)
-        with open(os.path.join(VERIF, "evidence", self.pid + ".json"), "w") as f:
+        evdir = self.alt or os.path.join(VERIF, "evidence")
+        os.makedirs(evdir, exist_ok=True)
+        with open(os.path.join(evdir, self.pid + ".json"), "w") as f:
             json.dump(ev, f, indent=1, default=str)
             f.write("\n")
         print(
